@@ -1,4 +1,5 @@
-"""C12 finding: the 'inherited by' graph of a type with several extensions changes with PYTHONHASHSEED.
+"""C12 finding, FIXED by c3c7c8e (`for c in sorted(node.children)`); on a tree with the fix demonstrate()
+returns False (regression demo).  Before the fix: the 'inherited by' graph of a type with several extensions changes with PYTHONHASHSEED.
 InheritedByGraph.add_node iterates `node.children` - a set of graph nodes hashed by hash(ident) - without
 sorting; every other neighbour collection in ford/graphs.py is walked with sorted(...).
 Expected: the same <svg> for every seed.   Patch: `for c in sorted(node.children):`"""
@@ -13,8 +14,8 @@ def demonstrate(verbose=True):
     seeds = list(range(1, 6))
     if verbose:
         print("graph: true, PYTHONHASHSEED =", seeds)
-    needed, clean = explain(runs(SRC, {"graph": "true"}, seeds), ["inheritedby-children-order"], verbose)
-    return "inheritedby-children-order" in needed and clean
+    needed, clean = explain(runs(SRC, {"graph": "true"}, seeds), [], verbose)
+    return not clean
 
 
 if __name__ == "__main__":
